@@ -297,7 +297,8 @@ def c16(tier, seed):
              "directory before and after; members without '..' that do not collide and fit OS limits must be extracted exactly; distinct = distinct case; non-trivial = >= 2 members",
         musthit=["musthit:absolute_name", "musthit:dotdot_in_the_middle", "form:whole_archive_linear", "form:listed_names", "form:glob",
                  "syscalls_inside_output_dir", "members_extracted_exactly", "snapshot_unchanged_outside_output_dir",
-                 "musthit:member_reaching_an_existing_outside_file_through_a_symlink", "musthit:component_of_exactly_255_bytes"],
+                 "musthit:member_reaching_an_existing_outside_file_through_a_symlink", "musthit:component_of_exactly_255_bytes",
+                 "musthit:more_members_open_at_once_than_the_output_pool", "musthit:member_at_a_dangling_symlink"],
         assumptions=["a member through a pre-existing symlink, a component over 255 bytes, an over-long path or a file/directory conflict puts the archive under the containment clause only"],
     )
 
@@ -397,7 +398,8 @@ def c20(tier, seed):
              "distinct = distinct case; all non-trivial",
         musthit=["held:create_read_back_by_rust_reader", "held:extract_hands_exact_bytes", "held:callback_failure_gives_error_status",
                  "held:invalid_handle_gives_error_status", "create:valgrind", "extract:valgrind", "null_or_stale_handle_call",
-                 "create:write_callback_reports_interruptions"],
+                 "create:write_callback_reports_interruptions", "extract:after_info_on_the_same_context",
+                 "extract:after_a_failed_extraction_on_the_same_context"],
     )
 
 
